@@ -5,11 +5,14 @@ package c07
 import (
 	"context"
 
+	"git.defalsify.org/vise.git/cache"
 	"git.defalsify.org/vise.git/db/mem"
 	"git.defalsify.org/vise.git/engine"
 	"git.defalsify.org/vise.git/persist"
+	"git.defalsify.org/vise.git/state"
 	"vharness/app"
 	"vharness/apps"
+	"vharness/snap"
 	"vharness/vrt"
 )
 
@@ -61,7 +64,9 @@ func Equiv(v *vrt.Ctx) {
 	cfg := engine.Config{Root: "root", FlagCount: 4, SessionId: "s1"}
 	cfg.OutputSize, cfg.CacheSize = Sizes(v)
 	rsA, rsB := apps.Get(which), apps.Get(which)
-	enA := engine.NewEngine(cfg, rsA)
+	stA := state.NewState(cfg.FlagCount)
+	caA := cache.NewCache().WithCacheSize(cfg.CacheSize)
+	enA := engine.NewEngine(cfg, rsA).WithState(stA).WithMemory(caA)
 	store := mem.NewMemDb()
 	store.Connect(ctx, "")
 	for i := 0; i < k; i++ {
@@ -87,6 +92,12 @@ func Equiv(v *vrt.Ctx) {
 		v.Assert((ferrA == nil) == (ferrB == nil), "C07/same-flush-error")
 		v.Assert(wA.S == wB.S, "C07/same-output")
 		v.Assert(finB == nil, "C07/save-ok")
+		// the stored session is the live one (everything a later request can
+		// observe: position, flags, pending code, cache incl. the last value)
+		pl := persist.NewPersister(store).WithContent(state.NewState(cfg.FlagCount), cache.NewCache())
+		if pl.Load(cfg.SessionId) == nil && contA && errA == nil {
+			v.Assert(snap.Same(v, snap.Take(stA, caA), snap.Take(pl.GetState(), pl.Memory)), "C07/stored-session-equals-the-live-one")
+		}
 		if !contA || errA != nil {
 			v.Cover("C07/session-ended-or-error")
 			if !contA {
